@@ -46,6 +46,13 @@ def jobs(pid, tier):
                      need_outcomes=['returned:cofactor', 'returned:compose1', 'returned:rename']))
         if not q:
             J.append(Job('let', dict(N=5, L=3, kinds=['compose2']), need_outcomes=['returned:compose2']))
+    if pid == 'C05':
+        J.append(Job('lexer_table', {}, need_outcomes=['table'], procs=1))
+        J.append(Job('roundtrip', dict(N=4 if q else 5, L=3, flavour='bdd'), need_outcomes=['round_trip']))
+        J.append(Job('roundtrip', dict(N=3 if q else 4, L=2, flavour='autoref'), need_outcomes=['round_trip']))
+        J.append(Job('parse', dict(alphabet='prop', maxlen=8 if q else 9, nv=5), need_outcomes=['accepted', 'rejected']))
+        J.append(Job('parse', dict(alphabet='binders', maxlen=6 if q else 7, nv=3), need_outcomes=['accepted', 'rejected']))
+        J.append(Job('parse', dict(alphabet='ite', maxlen=9 if q else 11, nv=5), need_outcomes=['accepted', 'rejected']))
     if pid == 'C06':
         J.append(Job('k8_gc', dict(N=4, L=2, roots=0, nondet=True), need_outcomes=['collected', 'nothing_to_collect']))
         J.append(Job('k8_gc', dict(N=5, L=3, roots=0, nondet=not q), need_outcomes=['collected', 'nothing_to_collect']))
@@ -58,9 +65,12 @@ def jobs(pid, tier):
         J.append(Job('k7_swap', dict(N=4, L=2, x=0, K=2), need_outcomes=['swapped']))
         J.append(Job('k7_swap', dict(N=4, L=3, x=0, K=2), need_outcomes=['swapped']))
         J.append(Job('k7_swap', dict(N=4, L=3, x=1, K=2, by='name'), need_outcomes=['swapped']))
+        J.append(Job('sched', dict(L=3), need_outcomes=['done:' + k for k in
+                     ('sift', 'to_order', 'to_pairs', 'autoref_sift', 'autoref_order', 'shift')]))
         if not q:
             J.append(Job('k7_swap', dict(N=5, L=3, x=0, K=3), need_outcomes=['swapped']))
             J.append(Job('k7_swap', dict(N=5, L=3, x=1, K=3, by='reversed'), need_outcomes=['swapped']))
+            J.append(Job('sched', dict(L=4, kinds=['sift', 'to_order', 'to_pairs']), need_outcomes=['done:sift']))
     if pid == 'C10':
         J.append(Job('sat', dict(N=4, L=2), need_outcomes=['returned:' + e for e in
                      ('support', 'essential', 'count', 'pick_iter', 'pick')]))
